@@ -22,9 +22,11 @@ def generate(workdir, modname, order):
     m = importlib.import_module(modname)
     classes = [getattr(m, n) for n in order]
     cd = ClassDiagram(classes)
-    o = ORMatic(cd)
+    extra = getattr(m, "VERIF_ORMATIC", {})
+    o = ORMatic(cd, alternative_mappings=list(extra.get("alternative_mappings", [])),
+                type_mappings=dict(extra.get("type_mappings", {})))
     o.make_all_tables()
-    path = os.path.join(workdir, modname + "_iface.py")
+    path = os.path.join(workdir, modname.replace(".", "_") + "_iface.py")
     with open(path, "w") as f:
         o.to_sqlalchemy_file(f)
     return m, path
@@ -56,7 +58,7 @@ def main():
         m, path = generate(workdir, modname, order)
         out["iface_sha"] = __import__("hashlib").sha256(open(path, "rb").read()).hexdigest()
         out["stage"] = "import"
-        iface = importlib.import_module(modname + "_iface")
+        iface = importlib.import_module(modname.replace(".", "_") + "_iface")
         out["stage"] = "configure"
         from sqlalchemy.orm import configure_mappers
         configure_mappers()
